@@ -91,6 +91,9 @@ func main() {
 		fmt.Printf("part1 %-22s %-32s fields=%d (%d excluded) objects=%d pairs=%d distinct-digests=%d distinct-meanings=%d violations=%d\n",
 			res.Kind, res.Digest, res.Fields, res.Ignored, res.Objects, res.Pairs, res.Distinct, res.Meanings, res.Violations)
 	}
+	evN, evOut := checkEvidenceIdentity(r)
+	evaluations += int64(evN)
+	cov["evidence_identity_through_AddDSE"] = map[string]any{"ordered_pairs": evN, "outcomes": evOut}
 	cov["part1_families"] = famRes
 	cov["part1_cross_kind_digests"] = len(cross)
 	fmt.Printf("part1 done in %.1fs: %d families, cross-kind table %d digests\n", time.Since(t0).Seconds(), len(famRes), len(cross))
